@@ -1,5 +1,5 @@
 (** C18 proofs, collected: open time ([OpenProofs]) and polling ([PollProofs]). *)
-From LS Require Export Vfs.PMapFacts Vfs.World Vfs.OpenProofs Vfs.PollProofs Vfs.TimeTravelProofs.
+From LS Require Export Vfs.PMapFacts Vfs.World Vfs.OpenProofs Vfs.PollProofs Vfs.TimeTravelProofs Vfs.HydrationProofs.
 
 (** names used by DESIGN §6 C18 *)
 Definition vfs_open_refines_restore := open_refines_restore.
